@@ -255,3 +255,6 @@ func VerifManagerBackoffKey(m *Manager) any { return m.backoff }
 
 // VerifClientSocketKey is the object the hooks of this client socket report.
 func VerifClientSocketKey(s ClientSocket) any { return s.(*clientSocket) }
+
+// VerifSetLockSink installs the receiver of the lock events of internal/sync.
+func VerifSetLockSink(f func(op, mode string, m any, pc uintptr)) { vhook.SetLockSink(f) }
